@@ -65,6 +65,53 @@ theorem canonicalizeName_singleLine (s : String) (h : SingleLine s) : SingleLine
   exact lowerChar_not_nl d (collapseSeps_noNL false _ h d hd)
 
 
+/-! ### the uri format and the SPDX fallback names -/
+
+theorem space_of_nl (c : Char) (h : isNL c = true) : isSpace c = true := by
+  simp [isNL] at h
+  rcases h with rfl | rfl <;> decide
+
+theorem isWordAscii_not_nl (c : Char) (h : isWordAscii c = true) : isNL c = false := by
+  cases hn : isNL c with
+  | false => rfl
+  | true =>
+    simp [isNL] at hn
+    rcases hn with rfl | rfl <;> simp [isWordAscii, isDigit, isLowerAlpha] at h
+
+/-- **a value accepted by the schema's `format: uri` contains no line break** (no white space at all after the scheme) -/
+theorem uriFormat_singleLine (u : String) (h : uriFormatMatch u.toList = true) : SingleLine u := by
+  unfold SingleLine
+  generalize u.toList = s at h
+  unfold uriFormatMatch at h
+  simp only [Bool.and_eq_true] at h
+  obtain ⟨_, h2⟩ := h
+  have hsplit : s = s.takeWhile isWordAscii ++ s.dropWhile isWordAscii := (List.takeWhile_append_dropWhile).symm
+  intro c hc
+  rw [hsplit] at hc
+  rcases List.mem_append.1 hc with hc | hc
+  · exact isWordAscii_not_nl c (takeWhile_all_mem isWordAscii s c hc)
+  · cases hd : s.dropWhile isWordAscii with
+    | nil => rw [hd] at hc; simp at hc
+    | cons x rest =>
+      rw [hd] at h2 hc
+      split at h2
+      · rename_i rest' heq
+        simp at heq
+        obtain ⟨rfl, rfl⟩ := heq
+        simp only [Bool.and_eq_true, List.all_eq_true] at h2
+        simp at hc
+        rcases hc with rfl | hc
+        · decide
+        · have := h2.2 c hc
+          cases hn : isNL c with
+          | false => rfl
+          | true => rw [space_of_nl c hn] at this; simp at this
+      · simp at h2
+
+theorem fallbackNames_singleLine (kv : String × String) (h : kv ∈ Gen.licenseFallbackNames) : SingleLine kv.2 := by
+  have tbl : ∀ kv ∈ Gen.licenseFallbackNames, SingleLine kv.2 := by decide
+  exact tbl kv h
+
 /-! ### what remains trusted: printers only -/
 
 /-- the verbatim parts of the `[tool.poetry.dependencies]` entries are single-line (what the validator guarantees) -/
@@ -87,12 +134,15 @@ structure Printers (proj : ProjectT) (tool : ToolT) (spdx : String → Option Li
   branch, tag, rev, subdirectory, extras) have none; the other parts are printed from parsed objects: the
   constraint (C15 text), the marker (C13 text), a percent-encoded path, a PEP 508 requirement re-printed (C10) -/
   requiresDist : DependencySourcesSingleLine tool → ∀ d ∈ rd, SingleLine d
-  /-- schema `format: uri` (`^\w+:(\/?\/?)[^\s]+\Z`, fastjsonschema): no white space in [tool.poetry] homepage /
-  repository / documentation -/
-  toolLinks : ∀ u, (tool.homepage = some u ∨ tool.repository = some u ∨ tool.documentation = some u) → SingleLine u
-  /-- the SPDX table: licence names are single-line (used only for ids in CLASSIFIER_SUPPORTED without an entry in
-  CLASSIFIER_NAMES) -/
-  spdxNames : ∀ raw l, spdx raw = some l → SingleLine l.name
+  /-- schema validation (fastjsonschema engine, trusted) accepted [tool.poetry] homepage / repository / documentation,
+  which the schema restricts by `format: uri`; the format's regular expression is modelled (`uriFormatMatch`, pinned
+  to the vendored source text) and PROVED line-free (`uriFormat_singleLine`) -/
+  toolLinksFormat : ∀ u, (tool.homepage = some u ∨ tool.repository = some u ∨ tool.documentation = some u) →
+    uriFormatMatch u.toList = true
+  /-- `license_by_id` (trusted lookup) returns the SPDX table's entry: for the few licences whose SPDX *name* is
+  printed (`NameNeeded`: supported ids without a classifier name) that is one of `Gen.licenseFallbackNames`,
+  regenerated from spdx/data/licenses.json and PROVED line-free by `decide` -/
+  spdxTable : ∀ raw l, spdx raw = some l → NameNeeded l → (l.id, l.name) ∈ Gen.licenseFallbackNames
 
 theorem toMeta_version (p : Pkg) (texts : List String) (fp : String) (m : Meta) (h : p.toMeta texts fp = .ok m) :
     ∃ v, Version.parse p.version = .ok v ∧ m.version = v.toString := by
@@ -141,8 +191,8 @@ theorem validated_guard_printers
       formatPython := hp.formatPython
       extras := ?_
       requiresDist := hp.requiresDist hdeps
-      toolLinks := hp.toolLinks
-      spdxNames := hp.spdxNames }
+      toolLinks := fun u hu => uriFormat_singleLine u (hp.toolLinksFormat u hu)
+      spdxNames := fun raw l hl hn => fallbackNames_singleLine _ (hp.spdxTable raw l hl hn) }
   intro e he
   obtain ⟨n, hn, rfl⟩ := hp.extrasCanonical e he
   apply canonicalizeName_singleLine
